@@ -29,7 +29,8 @@ VARIABLES l,
                       \* not the automaton's last_ts field: "left without input for longer than its timeout")
 vars == << l, tbl, mT, sT, full, lastFrame, lastHello, lastNi, lastIn >>
 
-NoFull == [ms |-> 0, live |-> {}, es |-> 0, hto |-> 0 - 1, bto |-> 0 - 1, lasttx |-> 0, ni |-> << 0, 45 >>, r |-> << 0, 0 >>, begun |-> 0, ctc |-> 0, cdl |-> 0 - 1]
+NoFull == [ms |-> 0, live |-> {}, es |-> 0, hto |-> 0 - 1, bto |-> 0 - 1, lasttx |-> 0, ni |-> << 0, 45 >>, r |-> << 0, 0 >>, begun |-> 0, ctc |-> 0, cdl |-> 0 - 1,
+           inact |-> 0, clamped |-> FALSE]
 
 TraceInit ==
   /\ l = 1 /\ tbl = {} /\ mT = << 0, 0, 0 >> /\ sT = << 0, 0, 0, 0 >>
@@ -58,7 +59,10 @@ FullOf(ev) == [ms |-> ev.ms, live |-> LiveSet(ev), es |-> ev.es,
                hto |-> IF ev.hto = Unset THEN 0 - 1 ELSE ev.now + ev.hto,      \* absolute deadlines (ms), -1 = unset
                bto |-> IF ev.bto = Unset THEN 0 - 1 ELSE ev.now + ev.bto,
                lasttx |-> ev.lasttx, ni |-> ev.ni, r |-> ev.r, begun |-> ev.begun, ctc |-> ev.ctc,
-               cdl |-> 0 - 1]       \* charge deadline (seconds): the monitor's own record, set by TGlue / TTick below
+               cdl |-> 0 - 1,       \* charge deadline (seconds): the monitor's own record, set by TGlue / TTick below
+               inact |-> ev.inact,  \* the inactivity timer as the record holds it (seconds, 0 = not armed)
+               clamped |-> (ev.hto # Unset /\ (ev.hto >= 999999999 \/ ev.hto <= 0 - 999999999))
+                           \/ (ev.bto # Unset /\ (ev.bto >= 999999999 \/ ev.bto <= 0 - 999999999))]
 
 (* charge counter (beyond the listed properties, "XGLUE"): a Charge frame increments it and (re)starts a 1 s   *)
 (* timeout; the tick that finds the timeout expired - or ends the session for inactivity - resets it to 0     *)
@@ -81,6 +85,52 @@ TickRefines(ev) ==
       post == AbsOf(FullOf(ev), LiveSet(ev), ev.now)
   IN /\ Len(ev.hellos) <= 1
      /\ \E r \in TP!TickStep(pre) : r.post = post /\ r.sent = (Len(ev.hellos) = 1)
+
+(* ---------------------------------------------------------------- XTICK: the tick, value for value          *)
+(* Beyond the listed properties: automata_tick as a deterministic function of the state the previous event     *)
+(* logged and of the clock - inactivity timer, charge timer, 60 s sweep, table-status update of the           *)
+(* enumeration engine, Hello deadline (send / suppress to last transmit + 1 s / re-arm at                      *)
+(* max(load interval, 1 s)), block end (count formula, r cleared, next block in 300 ms, Hello deadline         *)
+(* re-chosen from the load interval).  Every field the tick leaves behind must equal the model's.             *)
+BlockMs == 300
+MinGapMs == 1000
+LoadInterval(ni) == Max(HelloIntervalMin(ni), 6)            \* at least one frame time (20/3 ms, truncated)
+TickExact(f, now) ==
+  LET nows == now \div 1000
+      fire == f.inact # 0 /\ nows >= f.inact
+      ctc1 == IF fire \/ CtcDue(f, nows) THEN 0 ELSE f.ctc
+      tbl2 == TExpire(IF fire THEN {} ELSE f.live, nows)
+      es1 == IF f.es = 0 THEN 0 ELSE IF tbl2 = {} THEN 0
+             ELSE IF AllComplete(tbl2) THEN EnumNext(f.es, EnumComplete) ELSE EnumNext(f.es, EnumNotComplete)
+      cleared == f.es # 0 /\ tbl2 = {}
+      hto1 == IF cleared THEN 0 - 1 ELSE f.hto
+      bto1 == IF cleared THEN 0 - 1 ELSE f.bto
+      begun1 == IF cleared THEN 0 ELSE f.begun
+      due == es1 = 1 /\ hto1 >= 0 /\ now >= hto1
+      supp == due /\ f.lasttx > 0 /\ now - f.lasttx < MinGapMs
+      send == due /\ ~supp
+      ni0 == f.ni[2]
+      hto2 == IF supp THEN f.lasttx + MinGapMs ELSE IF send THEN now + Max(LoadInterval(ni0), MinGapMs) ELSE hto1
+      begun2 == IF send THEN 1 ELSE begun1
+      es2 == IF send THEN EnumNext(1, EnumHello) ELSE es1
+      blk == es1 = 1 /\ bto1 >= 0 /\ now >= bto1
+      ni3 == IF blk THEN NiNext(ni0, f.r[1], f.r[2], begun2 = 1) ELSE ni0
+  IN [ es |-> es2, live |-> tbl2, ctc |-> ctc1, sent |-> send,
+       hto |-> IF blk THEN now + LoadInterval(ni3) ELSE hto2,
+       bto |-> IF blk THEN now + BlockMs ELSE bto1,
+       lasttx |-> IF send THEN now ELSE f.lasttx,
+       ni |-> << 0, ni3 >>, r |-> IF blk THEN << 0, 0 >> ELSE f.r, begun |-> begun2,
+       inact |-> IF fire THEN 0 ELSE f.inact ]
+TickExactOK(ev) ==
+  (full.ni[1] = 0 /\ ~full.clamped) =>
+    LET w == TickExact(full, ev.now)
+        g == FullOf(ev)
+        ok == /\ g.es = w.es /\ g.live = w.live /\ g.ctc = w.ctc /\ (Len(ev.hellos) = 1) = w.sent /\ Len(ev.hellos) <= 1
+              /\ g.hto = w.hto /\ g.bto = w.bto /\ g.lasttx = w.lasttx /\ g.ni = w.ni /\ g.r = w.r /\ g.begun = w.begun
+              /\ g.inact = w.inact
+    IN IF ok THEN TRUE
+       ELSE PrintT(<< "XTICK-DIFF", "now", ev.now, "pre", [full EXCEPT !.live = Cardinality(@)], "model", [w EXCEPT !.live = Cardinality(@)],
+                      "real", [g EXCEPT !.live = Cardinality(@)], "hellos", Len(ev.hellos) >>) /\ FALSE
 
 (* C12: periodic Hellos.  Every callback logged its virtual time, whether it ran inside the   *)
 (* tick, and an independent scan of the real table.                                          *)
@@ -190,6 +240,8 @@ TTick ==
                       \* tick that has to end the mapping session (30 s without a frame) sends nothing, and a Hello needs
                       \* a session that is neither complete nor past its 60 s (by the monitor's own record of the table)
                       /\ Len(ev.hellos) > 0 => (~mustEnd /\ \E e \in survivors : ~e.complete)
+     /\ Chk("XTICK") => TickExactOK(ev)
+     /\ (Primary = "XTICK" => TLCSet(2, TLCGet(2) \cup {l}))
      /\ (Primary = "C14" /\ had /\ full.ms # 0 => TLCSet(2, TLCGet(2) \cup {<< "tick", mustEnd, mustNot >>}))
      /\ (Primary = "C12" /\ Len(ev.hellos) > 0 => TLCSet(2, TLCGet(2) \cup {l}))
      /\ lastHello' = LastHelloAfter(ev.hellos, lastHello)
